@@ -28,7 +28,7 @@ def hooks_factory(state):
                 # write(s.data(), s.size()) of a string assembled character by character: the same bytes as one put() each
                 state['bytes'].extend(chars)
                 return None
-            state['bytes'].append(('write', rest))
+            state['bytes'].append(('write', rest, src))
             return None
         if kind == 'method' and name == 'push_back' and 'pair' in t:
             state.setdefault('pushed', []).append(True)
@@ -67,6 +67,15 @@ def encode(idx, emit, token_value, V):
     loop, var, body, pre = find_range_for(emit)
     obj = Obj('hexasm::InstrImm', {'immValue': V, 'token': const(32, True, token_value), 'byteOffset': const(32, True, 0),
                                    'assembled': const(1, False, 0)}, 'InstrImm')
+    # members the class has beyond the ones named above (a cached size, say) get the values its own constructor gives them
+    known = set(obj.fields)
+    extra = [f_.get('name') for c_ in ['hexasm::InstrImm'] + idx.bases_of('hexasm::InstrImm') if idx.records.get(c_) for f_ in idx.records[c_].fields
+             if f_.get('name') not in known]
+    if extra:
+        built = I.construct('hexasm::InstrImm', [const(32, True, token_value), V])
+        for k_, v_ in built.fields.items():
+            if k_ not in known:
+                obj.fields[k_] = v_
     env = {'this': Obj('hexasm::CodeGen', {}, 'CodeGen'), 'locals': {}}
     for prm in emit.params:
         env['locals'][prm['id']] = Obj('std::ostream', {}, 'outputFile')
@@ -98,6 +107,9 @@ def check_class(idx, emit, tok, opc, lo, hi):
     if len(bytes_) != n:
         ok2 = False
         why.append('getSize() says %d bytes, %d bytes emitted' % (n, len(bytes_)))
+    if not bytes_:
+        ok2 = False
+        why.append('no byte at all is emitted for operands in %s: the instruction vanishes from the image' % cls)
     vals = []
     for i, b in enumerate(bytes_):
         if not isinstance(b, IV) or b.bits is None or any(x is None for x in b.bits[:8]):
